@@ -809,6 +809,7 @@ pub fn run() -> SimResult {
     cfg.max_depth = range(1, 3);
     cfg.max_width = range(1, 4);
     cfg.node_budget = *pick(&[5u32, 10, 20]);
+    cfg.max_str = *pick(&[4u32, 12, 40, 80]);
     cfg.classes = gen::CL_PLAIN | if chance(1, 3) { gen::CL_QUOTE | gen::CL_U2 } else { 0 };
     let allow_big = chance(1, 40);
     let baseline = sched::ARENAS_LIVE.load(Ordering::SeqCst);
